@@ -479,8 +479,13 @@ func (g *Gen) block(cl *Cluster, used map[string]bool) *Block {
 		if g.F.ZeroPrefix && g.C.Prob(1, 4) {
 			cidr = "0.0.0.0/0"
 		}
-		if !used[cidr] || try > 6 {
+		if !used[cidr] {
 			break
+		}
+		if try > 6 {
+			// every draw hit a network this rule already names as block or exception: one hash:net member cannot
+			// be both, and which of the two the API semantics "mean" is not what C15/C16 are about - no block then
+			return nil
 		}
 	}
 	used[cidr] = true // keyed by the masked form
@@ -532,8 +537,13 @@ func (g *Gen) peers(cl *Cluster) []Peer {
 		k := g.C.Choose(4)
 		switch {
 		case k == 1 && g.F.Blocks && (blocks == 0 || g.F.MultiBlock):
-			out = append(out, Peer{Block: g.block(cl, used)})
-			blocks++
+			if b := g.block(cl, used); b != nil {
+				out = append(out, Peer{Block: b})
+				blocks++
+			} else {
+				sl := g.sel(podLabelKV)
+				out = append(out, Peer{PodSel: &sl})
+			}
 		case k == 2 && g.F.NsPeers:
 			s := g.sel(nsLabelKV)
 			out = append(out, Peer{NsSel: &s})
